@@ -156,6 +156,10 @@ harness! { fn c02_paths_agree_zf_2() unwind(14) { paths_agree::<crate::worlds::w
 harness! { fn c02_write_read_zf_2() unwind(4) { write_read::<crate::worlds::wzf::ZfM, 2>(W_QUERIES | W_OTHERS, R_ALL) } }
 harness! { fn c02_destroy_zf_3() unwind(5) { step_destroy::<crate::worlds::wzf::ZfM, 3>(0, 0) } }
 harness! { fn c02_grow_zf_2() unwind(8) { step_create_grow::<crate::worlds::wzf::ZfM, 2, 6>(0) } }
+harness! { fn c02_grow_al_1() unwind(6) { step_create_grow::<crate::worlds::wal::AlM, 1, 4>(0) } }
+harness! { fn c02_grow_al_2() unwind(8) { step_create_grow::<crate::worlds::wal::AlM, 2, 6>(0) } }
+harness! { fn c02_destroy_al_3() unwind(5) { step_destroy::<crate::worlds::wal::AlM, 3>(0, 0) } }
+harness! { fn c02_paths_agree_al_2() unwind(14) { paths_agree::<crate::worlds::wal::AlM, 2>(R_ALL) } }
 harness! { fn c02_paths_keys_tri_3() unwind(7) { paths_agree_keys::<w3::Tri, 3>() } }
 harness! { fn c02_paths_keys_foo_3() unwind(7) { paths_agree_keys::<w1::Foo, 3>() } }
 harness! { fn c02_paths_keys_other_2() unwind(7) { paths_agree_keys::<w3::Other, 2>() } }
